@@ -178,6 +178,14 @@ pub fn run(args: &Args) -> Report {
                 rep.count("stores_that_remove_an_earlier_event");
             }
             let mut steps = vec![Step { ev: mk(&mut rng, author_n, kind, tags, k % 9), track: k % 4 == 0, remove_after: false }];
+            // one event larger than two growth steps of the backing file early in the history (the map grows by
+            // several steps at once), referenced, with ordinary growth steps following it
+            if k == 6 && (debug || i % 3 == 1) {
+                let big = if debug { 5_300 } else { 9_500_000 };
+                let e = Ev::new(SemEvent { id: rng.arr32(), pubkey: crate::dbgen::author(5), sig: [1; 64], kind: 1, created_at: 999, tags: vec![], content: "L".repeat(big) }).unwrap();
+                steps.push(Step { ev: e, track: true, remove_after: false });
+                rep.count("events_larger_than_two_growth_steps");
+            }
             match k % 10 {
                 // referenced event is the newest in the map when a newer event at its address replaces it
                 3 => {
@@ -276,6 +284,7 @@ pub fn run(args: &Args) -> Report {
     if only.is_none() && !rep.has_finding("bytes-changed") && !rep.has_finding("bytes-changed-at-stable-address") && !rep.has_finding("reference-target-unreadable") {
         rep.require("tail_replacements_of_a_referenced_event", "no referenced event was replaced while it was the newest in the map");
         rep.require("tail_removals_of_a_referenced_event", "no referenced event was removed while it was the newest in the map");
+        rep.require("events_larger_than_two_growth_steps", "no event larger than two growth steps was stored");
     }
     rep
 }
